@@ -16,6 +16,7 @@
   every depth.
 -/
 import JRV.Model.JsonClass
+import JRV.Model.ConfigCopy
 import JRV.Lemmas.JsonClass
 
 set_option linter.unusedSimpArgs false
@@ -195,7 +196,9 @@ private theorem valueIn_ok {env : ClassEnv} {x : PyVal} {il : List PyVal} {b : B
   unfold valueIn at h
   split at h
   · simp [raise] at h
-  · simpa [pure, Except.pure, eq_comm] using h
+  · split at h
+    · simp [raise] at h
+    · simpa [pure, Except.pure, eq_comm] using h
 
 /-- What the field loop emits: exactly one entry `(name, dump value)` per stored field that is in `keep`, has a
     value of a known type that is not `in` the ignore list; in the order of the stored fields. -/
@@ -902,7 +905,7 @@ theorem C20_unsupported_omitted (X : DumpCtx) (sm ia : String) (ig : List PyVal)
 private theorem dumpFields_total (X : DumpCtx) (sm ia : String) (ig : List PyVal) (keep : List String) (il : List PyVal) :
     ∀ (fs : List (String × PyVal)),
     (∀ n x, (n, x) ∈ fs → isKnown X x = true →
-      (∃ y, dump X sm ia ig x = .ok y) ∧ (isDecimalObj X.env x = false ∨ il = [])) →
+      (∃ y, dump X sm ia ig x = .ok y) ∧ (inUndescribed X.env x il = false ∧ (eqRaisesOf X.env x = Option.none ∨ il = []))) →
     ∃ attrs, dumpFields X sm ia ig keep il fs = .ok attrs
   | [], _ => ⟨[], by simp [dumpFields, pure, Except.pure]⟩
   | (n, x) :: rest, h => by
@@ -911,12 +914,13 @@ private theorem dumpFields_total (X : DumpCtx) (sm ia : String) (ig : List PyVal
     split
     · rename_i hcond
       simp only [Bool.and_eq_true] at hcond
-      obtain ⟨⟨y, hy⟩, hdec⟩ := h n x (by simp) hcond.2
+      obtain ⟨⟨y, hy⟩, hund, hdec⟩ := h n x (by simp) hcond.2
       have hv : valueIn X.env x il = .ok (il.any (fun e => pyEq e x)) := by
         unfold valueIn
-        rcases hdec with hdec | hdec
-        · simp [hdec, pure, Except.pure]
-        · simp [hdec, pure, Except.pure]
+        rcases hdec with heq | hdec
+        · simp [hund, heq, pure, Except.pure]
+        · subst hdec
+          simp [hund, pure, Except.pure]
       rw [hv]
       cases il.any (fun e => pyEq e x) with
       | true => exact ⟨attrs, ha⟩
@@ -936,7 +940,7 @@ theorem C20_unsupported_no_failure (X : DumpCtx) (sm ia : String) (ig : List PyV
     (hil : ignoreListOf d fs ia ig = some il) (hcls : il.all (fun e => ignoreEntryClass e == 0) = true)
     (hset : ∀ n ∈ findFields X.env c (fs.map (·.1)), (fs.lookup n).isSome = true ∧ n ≠ jcKey)
     (hsup : ∀ n x, (n, x) ∈ fs → isKnown X x = true →
-      (∃ y, dump X sm ia ig x = .ok y) ∧ (isDecimalObj X.env x = false ∨ il = [])) :
+      (∃ y, dump X sm ia ig x = .ok y) ∧ (inUndescribed X.env x il = false ∧ (eqRaisesOf X.env x = Option.none ∨ il = []))) :
     ∃ attrs, dump X sm ia ig (.obj c fs) = .ok (.dict ((.str jcKey, .list [.str (emitName d), .list []]) :: attrs)) := by
   have hbean : dump X sm ia ig (.obj c fs) = dumpBean X sm ia ig d c (emitName d) fs := by
     unfold dump
@@ -990,6 +994,36 @@ theorem C20_unsupported_no_failure (X : DumpCtx) (sm ia : String) (ig : List PyV
       exact absurd rfl (hset _ hm).2
     simp only [c1, c2, c3, c4, Bool.false_eq_true, ↓reduceIte, ha, bind, Except.bind, pure, Except.pure]
   · simp at hil
+
+/-- **A value of an unsupported type is never looked at more closely than its type.**  The field loop skips a
+    stored field whose value is of neither a supported nor a handled type *before* the value is compared with the
+    ignore-list entries: whatever the ignore list and whatever the value's `__eq__` does (`eqRaises` of its class),
+    the loop continues with the remaining fields. -/
+theorem C20_unsupported_not_compared (X : DumpCtx) (sm ia : String) (ig : List PyVal) (keep : List String) (il : List PyVal)
+    (n : String) (x : PyVal) (rest : List (String × PyVal)) (hk : isKnown X x = false) :
+    dumpFields X sm ia ig keep il ((n, x) :: rest) = dumpFields X sm ia ig keep il rest := by
+  simp [dumpFields, hk]
+
+/-- The model does describe hostile comparisons (the previous theorem is not true by omission): a kept field whose
+    value is of a *handled* type with a hostile `__eq__` makes the field loop fail with the exception class of the
+    comparison as soon as the ignore list is not empty — as `attr_value not in ignore_list` does. -/
+theorem C20_hostile_known_raises (X : DumpCtx) (sm ia : String) (ig : List PyVal) (keep : List String) (il : List PyVal)
+    (n : String) (x : PyVal) (rest : List (String × PyVal)) (exc : String) (hkeep : keep.contains n = true)
+    (hk : isKnown X x = true) (hdec : inUndescribed X.env x il = false) (he : eqRaisesOf X.env x = some exc) (hne : il ≠ []) :
+    dumpFields X sm ia ig keep il ((n, x) :: rest) = raise exc := by
+  have hne' : il.isEmpty = false := by cases il <;> simp_all
+  have hmem : n ∈ keep := by simpa using hkeep
+  simp [dumpFields, hmem, hk, valueIn, hdec, he, hne', raise]
+
+/-- … and with an empty ignore list nothing is compared: the hostile value of a handled type is dumped. -/
+theorem C20_hostile_known_empty_list (X : DumpCtx) (sm ia : String) (ig : List PyVal) (keep : List String)
+    (n : String) (x : PyVal) (rest : List (String × PyVal)) (hkeep : keep.contains n = true) (hk : isKnown X x = true) :
+    dumpFields X sm ia ig keep [] ((n, x) :: rest) =
+      (do let y ← dump X sm ia ig x
+          let ys ← dumpFields X sm ia ig keep [] rest
+          pure ((.str n, y) :: ys)) := by
+  have hmem : n ∈ keep := by simpa using hkeep
+  simp [dumpFields, hmem, hk, valueIn, pure, Except.pure, bind, Except.bind]
 
 /- ---------- the configured names ---------- -/
 
@@ -1164,7 +1198,7 @@ example : dumpTop exX20 Option.none Option.none (some [.str "gone"]) exVal20 =
       (.str "s", .dict [(.str "__jsonclass__", .list [.str "pkg.Sub", .list []]), (.str "b", .str "z")])]]) := by
   simp [dumpTop, orStr, dump, dumpList, dumpBean, dumpFields, dumpKVs, handlerFor, exX20, exVal20, exEnv20, typeName,
     List.lookup, namesDistinct, emitName, getAttrD, findFields, slotsFinder, hasDict, ignoreEntryClass, pyEq, numEq, asInt?,
-    isKnown, isSubclass, valueIn, isDecimalObj, jcKey, bind, Except.bind, pure, Except.pure]
+    isKnown, isSubclass, valueIn, inUndescribed, isNonEmptyTuple, eqRaisesOf, isDecimalObj, jcKey, bind, Except.bind, pure, Except.pure]
 
 example : walk exX20 "to_json" "_skip" [.str "gone"] exVal20 [.item 0, .field "t"] = some (.tuple [.int 1]) := by
   decide +kernel
@@ -1201,6 +1235,103 @@ example : ∃ attrs, dump exX20 "to_json" "_skip" [] (.obj "Holder" [("x", .obj 
       simp only [List.mem_cons, Prod.mk.injEq, List.mem_nil_iff, or_false] at hm
       rcases hm with ⟨rfl, rfl⟩ | ⟨rfl, rfl⟩
       · exact absurd hk (by decide +kernel)
-      · exact ⟨⟨.int 1, by unfold dump; simp [handlerFor, exX20, typeName, List.lookup, pure, Except.pure]⟩, Or.inr rfl⟩)
+      · exact ⟨⟨.int 1, by unfold dump; simp [handlerFor, exX20, typeName, List.lookup, pure, Except.pure]⟩, by simp, Or.inr rfl⟩)
+
+/- ---------- the configuration that reaches `dump` through `Config.copy()` ---------- -/
+
+section copy
+open JRV.ConfigCopy
+
+/-- **`Config.copy()` passes every attribute on.**  Each of the eight attributes `__init__` defines has, in the copy,
+    the value it has in the original (the two dictionaries: the same entries) — with one exception the constructor
+    makes: a `user_agent` that a program set to `None` becomes the default user agent. -/
+theorem C20_copy_fields (c : Cfg) :
+    (copy c).version = c.version ∧ (copy c).useJsonclass = c.useJsonclass ∧ (copy c).contentType = c.contentType ∧
+    (copy c).classes = c.classes ∧ (copy c).serializeMethod = c.serializeMethod ∧
+    (copy c).ignoreAttribute = c.ignoreAttribute ∧ (copy c).handlers = c.handlers ∧
+    (copy c).userAgent = agentOr c.userAgent := by
+  simp [copy, init]
+
+/-- A copy of a configuration whose user agent is set is equal to it, attribute by attribute. -/
+theorem C20_copy_eq (c : Cfg) (h : c.userAgent ≠ .none) : copy c = c := by
+  cases c with
+  | mk v uj ct ua cls sm ia hs =>
+    cases ua <;> simp_all [copy, init, agentOr]
+
+/-- The 1.0-compatibility configuration differs from the copy in `version` only. -/
+theorem C20_compat_fields (c : Cfg) :
+    (compat c).version = .float ⟨false, 1, 0⟩ ∧ (compat c).useJsonclass = c.useJsonclass ∧
+    (compat c).classes = c.classes ∧ (compat c).serializeMethod = c.serializeMethod ∧
+    (compat c).ignoreAttribute = c.ignoreAttribute ∧ (compat c).handlers = c.handlers ∧
+    (compat c).contentType = c.contentType := by
+  simp [compat, copy, init]
+
+/-- **The names and the handler table `dump` consults are the configured ones on the compatibility path too.**
+    What `jsonclass.dump` reads of the per-request configuration of a JSON-RPC 1.0 request served by a 2.0 server
+    is what it reads of the server's configuration. -/
+theorem C20_compat_dumpCfg (c : Cfg) : dumpCfg? (compat c) = dumpCfg? c := by
+  simp [dumpCfg?, compat, copy, init]
+
+/-- … hence the dumped form of every value is the same through the per-request copy as through the server's own
+    configuration object, for every handler interpretation, class environment and explicit argument. -/
+theorem C20_compat_same_dump (c : Cfg) (env : ClassEnv) (H : Nat → HandlerFn) (cfg cfg' : DumpCfg)
+    (h : dumpCfg? c = some cfg) (h' : dumpCfg? (compat c) = some cfg')
+    (sm ia : Option String) (ig : Option (List PyVal)) (v : PyVal) :
+    dumpTop { env := env, cfg := cfg', H := H } sm ia ig v = dumpTop { env := env, cfg := cfg, H := H } sm ia ig v := by
+  rw [C20_compat_dumpCfg, h] at h'
+  simp only [Option.some.injEq] at h'
+  subst h'
+  rfl
+
+/-- The table `copyFields` (compared with the source by `C20_gen_configCopyFields`) covers exactly the attributes
+    `__init__` defines (`C20_gen_configInitFields`), each "same" or "copied". -/
+theorem C20_copy_table_complete :
+    copyFields.map (·.1) = initFields ∧ copyFields.all (fun e => e.2 == "same" || e.2 == "copied") = true := by
+  decide
+
+/-- Non-vacuity: a configuration with a custom method name, a custom ignore-attribute name, a handler table and a
+    local class; its compatibility configuration is read by `dump` in the same way … -/
+private def exCfg : Cfg :=
+  { ConfigCopy.default with serializeMethod := .str "_to_json", ignoreAttribute := .str "_skip",
+                            handlers := [("tuple", some 1), ("str", Option.none)], classes := [("Account", "c0")] }
+example : dumpCfg? (compat exCfg) =
+    some { serializeMethod := "_to_json", ignoreAttribute := "_skip", handlers := [("tuple", some 1), ("str", Option.none)] } := by
+  simp [dumpCfg?, compat, copy, init, exCfg, ConfigCopy.default]
+example : exCfg.userAgent ≠ .none := by simp [exCfg, ConfigCopy.default, init, agentOr]
+/-- … whereas a `copy` that forgets `serialize_method` (the constructor's default "_serialize" applies) is read
+    differently: the theorems above are statements about the function the code implements. -/
+private def forgetfulCopy (c : Cfg) : Cfg :=
+  let n := init c.version c.contentType c.userAgent c.useJsonclass (.str "_serialize") c.ignoreAttribute Option.none
+  { n with classes := c.classes, handlers := c.handlers }
+example : (dumpCfg? (forgetfulCopy exCfg)).map (·.serializeMethod) = some "_serialize" ∧
+    (dumpCfg? exCfg).map (·.serializeMethod) = some "_to_json" := by
+  simp [dumpCfg?, forgetfulCopy, init, exCfg, ConfigCopy.default]
+
+end copy
+
+/-- Non-vacuity of the hostile-comparison theorems: `Pt` compares only with its own kind (`__eq__` raises
+    AttributeError on a string), `Shape` has the class-level ignore list ["cache"] and holds a `Pt` directly in a
+    field.  Unhandled, the `Pt` is omitted and the dump succeeds although the ignore list is not empty; with a
+    handler registered for `Pt` the comparison is made and raises. -/
+private def exEnvH : ClassEnv := [
+  ("Shape", { module := "__main__", name := "Shape", kind := .bean [("name", .str ""), ("cache", .str ""), ("origin", .none)],
+              classAttrs := [("_ignore", .list [.str "cache"])] }),
+  ("Pt", { module := "__main__", name := "Pt", kind := .bean [("x", .int 0)], eqRaises := some "AttributeError" })]
+private def exShape : PyVal :=
+  .obj "Shape" [("name", .str "square"), ("cache", .str "do-not-send"), ("origin", .obj "Pt" [("x", .int 1)])]
+private def exXH (hs : List (String × Option Nat)) : DumpCtx :=
+  { env := exEnvH, cfg := { handlers := hs }, H := fun _ _ _ _ _ => pure (.str "H") }
+
+example : dump (exXH []) "_serialize" "_ignore" [] exShape =
+    .ok (.dict [(.str "__jsonclass__", .list [.str "Shape", .list []]), (.str "name", .str "square")]) := by
+  simp [dump, dumpBean, dumpFields, handlerFor, exXH, exShape, exEnvH, typeName, List.lookup, namesDistinct, emitName,
+    getAttrD, findFields, slotsFinder, hasDict, ignoreEntryClass, pyEq, isKnown, isSubclass, valueIn, inUndescribed, eqRaisesOf,
+    isDecimalObj, jcKey, bind, Except.bind, pure, Except.pure]
+example : dump (exXH [("Pt", some 0)]) "_serialize" "_ignore" [] exShape = raise "AttributeError" := by
+  simp [dump, dumpBean, dumpFields, handlerFor, exXH, exShape, exEnvH, typeName, List.lookup, namesDistinct, emitName,
+    getAttrD, findFields, slotsFinder, hasDict, ignoreEntryClass, pyEq, isKnown, isSubclass, valueIn, inUndescribed, eqRaisesOf,
+    isDecimalObj, jcKey, bind, Except.bind, pure, Except.pure, raise]
+example : isKnown (exXH []) (.obj "Pt" [("x", .int 1)]) = false ∧ eqRaisesOf exEnvH (.obj "Pt" [("x", .int 1)]) = some "AttributeError" := by
+  decide +kernel
 
 end JRV.Props
